@@ -542,7 +542,9 @@ pub fn encode(book: &MBook, ch: &BiffChoices, extra: &BiffExtra, rng: &mut Rng) 
         for (name, rgce) in &extra.names {
             let u = units(name);
             let wide = ch.force_wide || u.iter().any(|c| *c > 0xFF);
-            let mut d = vec![0u8, 0, 0, u.len() as u8];
+            // fBuiltin (bit 5 of the option flags) for the one-character built-in names
+            let builtin = u.len() == 1 && u[0] < 0x0E;
+            let mut d = vec![if builtin { 0x20u8 } else { 0 }, 0, 0, u.len() as u8];
             d.extend_from_slice(&(rgce.len() as u16).to_le_bytes());
             d.extend_from_slice(&[0u8; 8]);
             d.push(wide as u8);
